@@ -153,7 +153,7 @@ func siteInteresting(site string) bool {
 	file, ln := site[:i], site[i+1:]
 	lines, ok := srcLines[file]
 	if !ok {
-		f, err := os.Open(filepath.Join(getenv("VERIF_REPO", "/repo"), "snaps", file))
+		f, err := os.Open(filepath.Join(vhGetenv("VERIF_REPO", "/repo"), "snaps", file))
 		if err == nil {
 			sc := bufio.NewScanner(f)
 			sc.Buffer(nil, 1<<20)
@@ -230,7 +230,7 @@ func runSched(c schedCase, pre []vsched.Preempt, record bool) (schedObs, error) 
 	}
 	newProcess(Mode{})
 	upd, noUpd := spec, spec
-	upd.Update, noUpd.Update = boolp(true), boolp(false)
+	upd.Update, noUpd.Update = vhBoolp(true), vhBoolp(false)
 	cfgDefault, cfgUpd, cfgNo := spec.build(root), upd.build(root), noUpd.build(root)
 	soloOf := func(s CfgSpec) *Config { s.Filename = ""; return s.build(root) }
 	soloDefault, soloUpd, soloNo := soloOf(spec), soloOf(upd), soloOf(noUpd)
@@ -271,9 +271,9 @@ func runSched(c schedCase, pre []vsched.Preempt, record bool) (schedObs, error) 
 				case len(errs) == 0 && len(logs) == 1 && strings.Contains(logs[0], "Snapshot updated"):
 					o = oUpdated
 				case len(errs) == 1 && len(logs) == 0:
-					o = oFailed + ": " + clip(errs[0])
+					o = oFailed + ": " + vhClip(errs[0])
 				default:
-					o = fmt.Sprintf("several signals: errors=%q logs=%q", clipAll(errs), clipAll(logs))
+					o = fmt.Sprintf("several signals: errors=%q logs=%q", vhClipAll(errs), vhClipAll(logs))
 				}
 				obs.outcomes[i] = append(obs.outcomes[i], o)
 			}
@@ -281,7 +281,7 @@ func runSched(c schedCase, pre []vsched.Preempt, record bool) (schedObs, error) 
 		}
 	}
 	obs.sess = vsched.Run(tasks, pre, c.Order, record)
-	obs.final = readFile(file)
+	obs.final = vhReadFile(file)
 	obs.solo = map[string]string{}
 	for p, f := range snapDir(root) {
 		if !f.IsDir && p != spec.multiPath() {
@@ -316,7 +316,7 @@ func judgeSched(c schedCase, obs schedObs) error {
 	}
 	es, err := refParse(obs.final)
 	if err != nil {
-		return fmt.Errorf("final file is torn / not well formed: %v; content %q; schedule: %s", err, clip(obs.final), trace)
+		return fmt.Errorf("final file is torn / not well formed: %v; content %q; schedule: %s", err, vhClip(obs.final), trace)
 	}
 	// expected: initial entries in their order (updated bodies where updated) + one entry per created slot
 	want := c.initialEntries()
@@ -341,15 +341,15 @@ func judgeSched(c schedCase, obs schedObs) error {
 	for p, data := range wantSolo {
 		got, ok := obs.solo[p]
 		if !ok {
-			return fmt.Errorf("standalone file %q is missing after the run; files: %v; schedule: %s", p, keysOfStrMap(obs.solo), trace)
+			return fmt.Errorf("standalone file %q is missing after the run; files: %v; schedule: %s", p, vhKeysOfStrMap(obs.solo), trace)
 		}
 		if got != data {
-			return fmt.Errorf("standalone file %q holds %q, a serial execution leaves %q; schedule: %s", p, clip(got), clip(data), trace)
+			return fmt.Errorf("standalone file %q holds %q, a serial execution leaves %q; schedule: %s", p, vhClip(got), vhClip(data), trace)
 		}
 	}
 	for p := range obs.solo {
 		if _, ok := wantSolo[p]; !ok {
-			return fmt.Errorf("unexpected file %q after the run (expected standalone files: %v); schedule: %s", p, keysOfStrMap(wantSolo), trace)
+			return fmt.Errorf("unexpected file %q after the run (expected standalone files: %v); schedule: %s", p, vhKeysOfStrMap(wantSolo), trace)
 		}
 	}
 	if len(es) < len(want) {
@@ -357,7 +357,7 @@ func judgeSched(c schedCase, obs schedObs) error {
 	}
 	for i := range want {
 		if es[i] != want[i] {
-			return fmt.Errorf("pre-existing entry %d is %q=%q, expected %q=%q (lost update, stale copy or reordering); final %s; schedule: %s", i, es[i].ID, clip(string(es[i].Body)), want[i].ID, clip(string(want[i].Body)), describeEntries(es), trace)
+			return fmt.Errorf("pre-existing entry %d is %q=%q, expected %q=%q (lost update, stale copy or reordering); final %s; schedule: %s", i, es[i].ID, vhClip(string(es[i].Body)), want[i].ID, vhClip(string(want[i].Body)), describeEntries(es), trace)
 		}
 	}
 	seen := map[string]bool{}
@@ -367,7 +367,7 @@ func judgeSched(c schedCase, obs schedObs) error {
 			return fmt.Errorf("unexpected or duplicated entry %q in the final file %s; schedule: %s", e.ID, describeEntries(es), trace)
 		}
 		if string(e.Body) != body {
-			return fmt.Errorf("created entry %q holds %q, want %q; schedule: %s", e.ID, clip(string(e.Body)), clip(body), trace)
+			return fmt.Errorf("created entry %q holds %q, want %q; schedule: %s", e.ID, vhClip(string(e.Body)), vhClip(body), trace)
 		}
 		seen[string(e.ID)] = true
 	}
@@ -379,7 +379,7 @@ func judgeSched(c schedCase, obs schedObs) error {
 	return nil
 }
 
-func keysOfStrMap(m map[string]string) []string {
+func vhKeysOfStrMap(m map[string]string) []string {
 	var out []string
 	for k := range m {
 		out = append(out, k)
@@ -389,7 +389,7 @@ func keysOfStrMap(m map[string]string) []string {
 }
 
 // concretize maps abstract preemptions to exact (task, yield number) pairs using a dry run.
-func concretize(c schedCase) ([]vsched.Preempt, error) {
+func vhConcretize(c schedCase) ([]vsched.Preempt, error) {
 	if c.Exact != nil || len(c.Preempts) == 0 {
 		return c.Exact, nil
 	}
@@ -421,7 +421,7 @@ func concretize(c schedCase) ([]vsched.Preempt, error) {
 }
 
 func checkSched(c schedCase) error {
-	pre, err := concretize(c)
+	pre, err := vhConcretize(c)
 	if err != nil {
 		return err
 	}
@@ -475,7 +475,7 @@ func genSchedScenario(t *rapid.T) schedCase {
 			if kind == "mismatch" || kind == "update" {
 				old := rapid.SampledFrom(pool).Draw(t, "old")
 				if old == v {
-					old = pool[(indexOf(pool, v)+1)%len(pool)]
+					old = pool[(vhIndexOf(pool, v)+1)%len(pool)]
 				}
 				call.Old = BS(old)
 			}
@@ -483,7 +483,7 @@ func genSchedScenario(t *rapid.T) schedCase {
 		}
 		c.Tests = append(c.Tests, st)
 	}
-	c.Shuffle = rapid.Permutation(indices(12)).Draw(t, "shuffle")
+	c.Shuffle = rapid.Permutation(vhIndices(12)).Draw(t, "shuffle")
 	if len(c.initialEntries()) == 0 && len(c.standaloneFiles(true)) == 0 {
 		c.FreshDir = rapid.Bool().Draw(t, "freshdir")
 	}
@@ -572,8 +572,8 @@ var exhaustiveBigScenarios = []schedCase{
 }
 
 func TestC06_ExhaustiveBig(t *testing.T) {
-	nshards, _ := strconv.Atoi(getenv("VERIF_NSHARDS", "1"))
-	shard, _ := strconv.Atoi(getenv("VERIF_SHARD", "0"))
+	nshards, _ := strconv.Atoi(vhGetenv("VERIF_NSHARDS", "1"))
+	shard, _ := strconv.Atoi(vhGetenv("VERIF_SHARD", "0"))
 	p := prop[schedCase]{property: "C06", check: checkSched, classify: classifySched}
 	p.enumerate(t, func(yield func(schedCase) bool) {
 		idx := 0
@@ -622,8 +622,8 @@ func TestC06_ExhaustiveBig(t *testing.T) {
 }
 
 func TestC06_Exhaustive2(t *testing.T) {
-	nshards, _ := strconv.Atoi(getenv("VERIF_NSHARDS", "1"))
-	shard, _ := strconv.Atoi(getenv("VERIF_SHARD", "0"))
+	nshards, _ := strconv.Atoi(vhGetenv("VERIF_NSHARDS", "1"))
+	shard, _ := strconv.Atoi(vhGetenv("VERIF_SHARD", "0"))
 	scenarios := exhaustiveScenarios
 	p := prop[schedCase]{property: "C06", check: checkSched, classify: classifySched}
 	p.enumerate(t, func(yield func(schedCase) bool) {
@@ -688,8 +688,8 @@ func TestC06_Exhaustive3(t *testing.T) {
 	if !tierThorough() {
 		t.Skip("thorough tier only")
 	}
-	nshards, _ := strconv.Atoi(getenv("VERIF_NSHARDS", "1"))
-	shard, _ := strconv.Atoi(getenv("VERIF_SHARD", "0"))
+	nshards, _ := strconv.Atoi(vhGetenv("VERIF_NSHARDS", "1"))
+	shard, _ := strconv.Atoi(vhGetenv("VERIF_SHARD", "0"))
 	p := prop[schedCase]{property: "C06", check: checkSched, classify: classifySched}
 	p.enumerate(t, func(yield func(schedCase) bool) {
 		idx := 0
@@ -727,7 +727,7 @@ func TestC06_Exhaustive3(t *testing.T) {
 	})
 }
 
-func indexOf(ss []string, s string) int {
+func vhIndexOf(ss []string, s string) int {
 	for i, x := range ss {
 		if x == s {
 			return i
@@ -766,8 +766,8 @@ func TestC19_ConcurrentStandalone(t *testing.T) {
 }
 
 func TestC19_ExhaustiveCaseNames(t *testing.T) {
-	nshards, _ := strconv.Atoi(getenv("VERIF_NSHARDS", "1"))
-	shard, _ := strconv.Atoi(getenv("VERIF_SHARD", "0"))
+	nshards, _ := strconv.Atoi(vhGetenv("VERIF_NSHARDS", "1"))
+	shard, _ := strconv.Atoi(vhGetenv("VERIF_SHARD", "0"))
 	base := exhaustiveScenarios[len(exhaustiveScenarios)-1]
 	p := prop[schedCase]{property: "C19", check: checkSched, classify: classifySched}
 	p.enumerate(t, func(yield func(schedCase) bool) {
